@@ -527,6 +527,14 @@ class World:
                              f'aliases={dict(exp[1])} config={dict(exp[2])}; history: {self.hist}')
                 return
         self.check_unit_fields(unit, kind, arg, where, kinds)
+        if not self.violations and macc and unit.modaliases is not None:
+            # the aliases the unit reports to the server are the ones that
+            # apply after the statement (dbview.on_success adopts them)
+            exp_al = self.aliases_after(kind, arg, ql)
+            if exp_al is not None and unit.modaliases != exp_al:
+                self.violate('T3', self.sig(f'unit-modaliases:{kind}'),
+                             f'{self.describe(kinds)}: the unit reports aliases {dict(unit.modaliases)}, '
+                             f'PostgreSQL-style semantics give {dict(exp_al)} after it; history: {self.hist}')
         if self.violations:
             return
 
@@ -553,6 +561,31 @@ class World:
     def sig(self, base):
         return base + (':after-server-resolved-a-released-savepoint'
                        if 'resolved-released-savepoint' in self.flags else '')
+
+    def aliases_after(self, kind, arg, ql):
+        m = self.m
+        cur = m.current()
+        qlast = self.isl['qlast']
+        if kind == 'commit':
+            return cur[1]
+        if kind == 'rollback':
+            return m.base[1]
+        if kind == 'rollback_to':
+            for nm, triple, _ in reversed(m.sps):
+                if nm == arg:
+                    return triple[1]
+            return None
+        if kind == 'alias':
+            return cur[1].set(ql.decl.alias, ql.decl.module)
+        if kind == 'reset_alias':
+            if isinstance(ql, qlast.SessionResetAllAliases):
+                return self.isl['DEFAULT_ALIASES']
+            if isinstance(ql, qlast.SessionResetModule):
+                return cur[1].set(None, 'default')
+            return cur[1].delete(ql.alias) if ql.alias in cur[1] else None
+        if kind == 'config':
+            return cur[1]
+        return None
 
     # -- T3 ------------------------------------------------------------------------------
     def check_unit_fields(self, unit, kind, arg, where, kinds):
